@@ -40,10 +40,14 @@ namespace track {
   static bool g_quarantine = false;
   static unsigned long g_class = 0;      // a block size that is counted separately
   static long g_class_live = 0;
+  static const long REG_CAP = 1L << 21;  // blocks handed out while the quarantine is on
+  static Hdr* g_reg[REG_CAP];
+  static long g_nreg = 0;
   inline void* get(std::size_t n) {
     Hdr* h = (Hdr*) std::malloc(sizeof(Hdr) + (n ? n : 1));
     if (!h) throw std::bad_alloc();
     h->magic = LIVE; h->size = n; ++g_live; if (n == g_class) ++g_class_live;
+    if (g_quarantine && g_nreg < REG_CAP) g_reg[g_nreg++] = h;
     return h + 1;
   }
   inline void put(void* p) {
@@ -53,8 +57,16 @@ namespace track {
     h->magic = DEAD; --g_live; if (h->size == g_class) --g_class_live;
     if (g_quarantine) std::memset(p, 0xDD, h->size); else std::free(h);
   }
-  // is the block that contains address q (payload start p) still live?
-  inline bool live_block(const void* p) { const Hdr* h = ((const Hdr*) p) - 1; return h->magic == LIVE; }
+  // blocks handed out during the quarantine that are still alive: `scratch' counts those of the sizes
+  // of the library's pooled scratch coefficients (Temp_Item<mpz_class>, Temp_Item<mpq_class>, which go
+  // back to a free list and are never deleted), `other' everything else
+  inline void survivors(long& scratch, long& other, unsigned long s1, unsigned long s2, std::string& sizes) {
+    scratch = other = 0;
+    for (long i = 0; i < g_nreg; ++i) if (g_reg[i]->magic == LIVE) {
+      if (g_reg[i]->size == s1 || g_reg[i]->size == s2) ++scratch;
+      else { ++other; if (sizes.size() < 80) sizes += std::to_string(g_reg[i]->size) + ","; }
+    }
+  }
 }
 void* operator new(std::size_t n) { return track::get(n); }
 void* operator new[](std::size_t n) { return track::get(n); }
@@ -1078,18 +1090,21 @@ template <class PSET> struct DetHist {
   static const int N = 6;
   Det* X[N];
   Rng r;
+  uint64_t seed0;
   dimension_type n;
+  bool mute = false;
+  void emit(const std::string& l) { if (!mute) J.line(l); }
   static const bool grid = DetTr<PSET>::grid;
-  DetHist(uint64_t seed, dimension_type n_) : r(seed), n(n_) { for (int i = 0; i < N; ++i) X[i] = 0; g_semantic_sys = true; g_dim = n_; }
+  DetHist(uint64_t seed, dimension_type n_) : r(seed), seed0(seed), n(n_) { for (int i = 0; i < N; ++i) X[i] = 0; g_semantic_sys = true; g_dim = n_; }
 
   static const PSET& cps(const Det& d) { return d.pointset(); }       // the const accessor: no mutate()
   unsigned long addr(int h) { return (unsigned long) (const void*) &cps(*X[h]); }
   void observe() {
     for (int h = 0; h < N; ++h) {
-      if (!X[h]) { J.line("dobs " + std::to_string(h) + " dead"); continue; }
-      OS o; o << "dobs " << h << " " << addr(h) << val_str(cps(*X[h])); J.line(o.str());
+      if (!X[h]) { emit("dobs " + std::to_string(h) + " dead"); continue; }
+      OS o; o << "dobs " << h << " " << addr(h) << val_str(cps(*X[h])); emit(o.str());
     }
-    J.line("dalloc " + std::to_string(track::g_faults));
+    emit("dalloc " + std::to_string(track::g_faults));
   }
   PSET* rnd_pset() { return Tr<PSET>::make(r, n); }
   int pick_live() { int c[N], k = 0; for (int i = 0; i < N; ++i) if (X[i]) c[k++] = i; return k ? c[r.below(k)] : -1; }
@@ -1106,23 +1121,23 @@ template <class PSET> struct DetHist {
   void construct(int h) {
     std::unique_ptr<PSET> p(rnd_pset());
     unsigned k = r.below(4);
-    J.line("dstep construct " + std::to_string(h));
-    J.line("res" + val_str(*p));
+    emit("dstep construct " + std::to_string(h));
+    emit("res" + val_str(*p));
     if (k == 0 && !grid) { Constraint_System cs(p->constraints()); X[h] = new Det(cs); }
     else if (k == 0 && grid) { Congruence_System cgs(p->congruences()); if (p->is_empty()) X[h] = new Det(*p); else X[h] = new Det(cgs); }
     else X[h] = new Det(*p);
     observe();
   }
   template <class F> void mutate(int h, const char* nm, F f) {
-    J.line(std::string("dstep mutate ") + std::to_string(h) + " " + nm);
-    { PSET t(cps(*X[h])); try { f(t); } catch (...) {} J.line("res" + val_str(t)); }
-    try { f(X[h]->pointset()); } catch (...) { J.line("exc " + pplv::exc_class() + " -"); }
+    emit(std::string("dstep mutate ") + std::to_string(h) + " " + nm);
+    { PSET t(cps(*X[h])); try { f(t); } catch (...) {} emit("res" + val_str(t)); }
+    try { f(X[h]->pointset()); } catch (...) { emit("exc " + pplv::exc_class() + " -"); }
     observe();
   }
   template <class G, class R> void binop(int h, int y, const char* nm, G g, R real) {
-    J.line(std::string("dstep binop ") + std::to_string(h) + " " + std::to_string(y) + " " + nm);
-    { PSET t(cps(*X[h])), u(cps(*X[y])); try { g(t, u); } catch (...) {} J.line("res" + val_str(t)); }
-    try { real(*X[h], *X[y]); } catch (...) { J.line("exc " + pplv::exc_class() + " -"); }
+    emit(std::string("dstep binop ") + std::to_string(h) + " " + std::to_string(y) + " " + nm);
+    { PSET t(cps(*X[h])), u(cps(*X[y])); try { g(t, u); } catch (...) {} emit("res" + val_str(t)); }
+    try { real(*X[h], *X[y]); } catch (...) { emit("exc " + pplv::exc_class() + " -"); }
     observe();
   }
   void fix_dim(int h) {
@@ -1135,14 +1150,14 @@ template <class PSET> struct DetHist {
     unsigned k = r.below(100);
     if (h < 0 || (k < 14 && pick_dead() >= 0)) { int d = pick_dead(); if (d >= 0) { construct(d); return; } }
     if (k < 30 && pick_dead() >= 0) { int d = pick_dead();
-      J.line("dstep copy " + std::to_string(d) + " " + std::to_string(h)); X[d] = new Det(*X[h]); observe(); return; }
+      emit("dstep copy " + std::to_string(d) + " " + std::to_string(h)); X[d] = new Det(*X[h]); observe(); return; }
     if (k < 48) { int y = pick_partner(h);
-      J.line("dstep assign " + std::to_string(h) + " " + std::to_string(y)); *X[h] = *X[y]; observe(); return; }
+      emit("dstep assign " + std::to_string(h) + " " + std::to_string(y)); *X[h] = *X[y]; observe(); return; }
     if (k < 58) { int y = pick_partner(h);
-      J.line("dstep swap " + std::to_string(h) + " " + std::to_string(y));
+      emit("dstep swap " + std::to_string(h) + " " + std::to_string(y));
       if (r.chance(1, 2)) X[h]->m_swap(*X[y]); else { using std::swap; swap(*X[h], *X[y]); }
       observe(); return; }
-    if (k < 66) { J.line("dstep destroy " + std::to_string(h)); delete X[h]; X[h] = 0; observe(); return; }
+    if (k < 66) { emit("dstep destroy " + std::to_string(h)); delete X[h]; X[h] = 0; observe(); return; }
     if (k < 80) {
       unsigned j = r.below(5);
       dimension_type v = r.below(n);
@@ -1171,21 +1186,29 @@ template <class PSET> struct DetHist {
         case 3: nm = "operator!="; b = (a != c); break;
         case 4: nm = "is_top"; b = a.is_top(); break;
         default: nm = "is_bottom"; b = a.is_bottom(); break; }
-      J.line(std::string("dq ") + nm + " " + std::to_string(h) + " " + std::to_string(y) + " " + (b ? "1" : "0"));
+      emit(std::string("dq ") + nm + " " + std::to_string(h) + " " + std::to_string(y) + " " + (b ? "1" : "0"));
       observe(); }
   }
 
   void run(long len) {
-    // warm up the library's lazily allocated scratch objects, then fix the baseline
-    { std::unique_ptr<PSET> p(rnd_pset()), q(rnd_pset()); Det a(*p), b(*q), c(a); c.upper_bound_assign(b); c.meet_assign(a); (void) val_str(cps(c)); c = b; }
+    // Pass 1 (silent): the same history, so that every lazily grown scratch object of the library
+    // (pooled temporaries, static work vectors) has its final size before the baseline is taken.
+    mute = true;
+    for (long i = 0; i < len; ++i) step();
+    for (int h = 0; h < N; ++h) { delete X[h]; X[h] = 0; }
+    // Pass 2: journalled, with poisoning and no reuse of freed blocks.
+    mute = false; r = Rng(seed0);
     track::g_class = sizeof(RepLike); track::g_class_live = 0;
-    long base_all = track::g_live, base_rep = 0;
+    long base_all = track::g_live;
     track::g_quarantine = true;
     for (long i = 0; i < len; ++i) step();
     // destruction in arbitrary order
-    for (;;) { int h = pick_live(); if (h < 0) break; J.line("dstep destroy " + std::to_string(h)); delete X[h]; X[h] = 0; observe(); }
-    { OS o; o << "dfinal " << track::g_class_live << " " << base_rep << " " << track::g_live << " " << base_all; J.line(o.str()); }
-    track::g_quarantine = false; track::g_class = 0;
+    for (;;) { int h = pick_live(); if (h < 0) break; emit("dstep destroy " + std::to_string(h)); delete X[h]; X[h] = 0; observe(); }
+    track::g_quarantine = false;
+    { long scratch = 0, other = 0; std::string sizes;
+      track::survivors(scratch, other, sizeof(Temp_Item<mpz_class>), sizeof(Temp_Item<mpq_class>), sizes);
+      OS o; o << "dfinal " << track::g_class_live << " 0 " << track::g_live << " " << base_all << " # survivors=" << (scratch + other) << " sizes=" << sizes; emit(o.str()); }
+    track::g_class = 0; track::g_nreg = 0;
   }
 };
 
@@ -1203,9 +1226,21 @@ int main(int argc, char** argv) {
   long batch = pplv::arg_long(argc, argv, "--batch", 6);
   long maxdim = pplv::arg_long(argc, argv, "--maxdim", 3);
   std::string only = pplv::arg_str(argc, argv, "--fam", "all");
-  long nb = (last - first + batch - 1) / batch;
-  return pplv::run_batches(0, nb, [&](long b) {
-    for (long h = first + b * batch; h < std::min(last, first + (b + 1) * batch); ++h) {
+  long cpu = pplv::arg_long(argc, argv, "--cpu", 20);             // CPU seconds per history (a runaway becomes `crash SIGXCPU')
+  long max_crashes = pplv::arg_long(argc, argv, "--max-crashes", 40);
+  (void) batch;
+  // one forked child per history (crash isolation); the run stops early when histories keep crashing
+  long crashes = 0;
+  for (long h = first; h < last; ++h) {
+    fflush(stdout);
+    pid_t pid = fork();
+    if (pid < 0) { perror("fork"); return 2; }
+    if (pid == 0) {
+      struct rlimit rl; rl.rlim_cur = (rlim_t) cpu; rl.rlim_max = (rlim_t) cpu + 2; setrlimit(RLIMIT_CPU, &rl);
+      struct rlimit core; core.rlim_cur = core.rlim_max = 0; setrlimit(RLIMIT_CORE, &core);
+#if !defined(__SANITIZE_ADDRESS__)
+      struct rlimit as; as.rlim_cur = as.rlim_max = (rlim_t) 3 << 30; setrlimit(RLIMIT_AS, &as);   // poisoned sizes must not exhaust the machine
+#endif
       int fam = (int)(h % NFAM);
       if (only != "all") { fam = -1; for (int i = 0; i < NFAM; ++i) if (only == FAMS[i]) fam = i; if (fam < 0) _exit(3); }
       uint64_t s = (uint64_t)seed * 1000003ull + (uint64_t)h;
@@ -1213,20 +1248,30 @@ int main(int argc, char** argv) {
       dimension_type n = 1 + pre.below((unsigned)maxdim);
       if ((fam == 7 || fam == 8) && n > 2 && pre.chance(1, 2)) n = 2;
       { OS o; o << "hist " << h << " " << FAMS[fam] << " " << n; J.line(o.str()); }
-      switch (fam) {
-      case 0: { LinHist H(s, n); H.run(len * 2); break; }
-      case 1: run_dom<C_Polyhedron>(s, n, len); break;
-      case 2: run_dom<NNC_Polyhedron>(s, n, len); break;
-      case 3: run_dom<BDS>(s, n, len); break;
-      case 4: run_dom<OCT>(s, n, len); break;
-      case 5: run_dom<Rational_Box>(s, n, len); break;
-      case 6: run_dom<Grid>(s, n, len); break;
-      case 7: run_dom<PPS>(s, n, len); break;
-      case 8: run_dom<PROD>(s, n, len); break;
-      case 9: { DetHist<C_Polyhedron> H(s, n); H.run(len * 3); break; }
-      default: { DetHist<Grid> H(s, n); H.run(len * 3); break; }
-      }
+      try {
+        switch (fam) {
+        case 0: { LinHist H(s, n); H.run(len * 2); break; }
+        case 1: run_dom<C_Polyhedron>(s, n, len); break;
+        case 2: run_dom<NNC_Polyhedron>(s, n, len); break;
+        case 3: run_dom<BDS>(s, n, len); break;
+        case 4: run_dom<OCT>(s, n, len); break;
+        case 5: run_dom<Rational_Box>(s, n, len); break;
+        case 6: run_dom<Grid>(s, n, len); break;
+        case 7: run_dom<PPS>(s, n, len); break;
+        case 8: run_dom<PROD>(s, n, len); break;
+        case 9: { DetHist<C_Polyhedron> H(s, n); H.run(len * 3); break; }
+        default: { DetHist<Grid> H(s, n); H.run(len * 3); break; }
+        }
+      } catch (...) { J.line("crash exception " + pplv::exc_class()); }
       J.line("end");
+      fflush(stdout);
+      _exit(0);
     }
-  }, 180);
+    int st = 0;
+    waitpid(pid, &st, 0);
+    if (WIFSIGNALED(st)) { J.line(std::string("crash ") + pplv::signal_name(WTERMSIG(st))); J.line("end"); ++crashes; }
+    else if (WIFEXITED(st) && WEXITSTATUS(st) != 0) { J.line("crash exit " + std::to_string(WEXITSTATUS(st))); J.line("end"); ++crashes; }
+    if (crashes >= max_crashes) { J.line("aborted " + std::to_string(crashes) + " histories crashed, " + std::to_string(last - h - 1) + " not run"); break; }
+  }
+  return 0;
 }
